@@ -492,6 +492,10 @@ let on_event (case : string) (cmd : string) (x : sx) =
   try
     match x with
     | L [A "taint"; _] -> tainted := true; stat "tainted_cases_events"
+    | L [A "panic"] ->
+        (* the implementation panicked outside the calls whose panics are part of the model *)
+        stat "panics";
+        if not !tainted then report "DRIVER" "the implementation panicked on a script of correct API use"
     | L (A "pre" :: rest) -> pre := rest
     | L [A "cmd"; _; _; A r] -> cur_rep := r
     | L [A "op"; A _idx; A author; o; L (A "deps" :: deps)] ->
